@@ -473,6 +473,40 @@ func runDKG(t *testing.T, rc *RunCtx) {
 			if len(rc.Viol) > 0 {
 				return
 			}
+		})
+		// Sometimes a second account is generated afterwards by another initiator: the first one must stay
+		// listed and usable on every participant (no restart in between).
+		if ch.Pick(3, 0) == 2 && len(rc.Viol) == 0 {
+			out2 := c.spawnGenerate(parts[ch.Pick(len(parts), 0)], "client1", "Wallet 3/gen2", uint32(th), uint32(n))
+			if o := s.Run(); o == "done" && out2.Done && out2.State == pb.ResponseState_SUCCEEDED {
+				rc.Stats.Inc("second_generations", 1)
+				s.Direct(func() {
+					for _, p := range parts {
+						if st, sig := p.partialSign("client1", path, h32("after second"), MkDomain([4]byte{7, 0, 0, 0}, 7)); st != pb.ResponseState_SUCCEEDED || len(sig) == 0 {
+							rc.Violate("C12", "account-unusable-after-later-generation", fmt.Sprintf("%s can no longer sign with %s after %s was generated (state %v)", p.Name, path, "Wallet 3/gen2", st), s.Step)
+							return
+						}
+						lres, err := p.Inst.ListerH.ListAccounts(p.Inst.ClientCtx("client1", ""), &pb.ListAccountsRequest{Paths: []string{"Wallet 3"}})
+						names := map[string]bool{}
+						if err == nil && lres != nil {
+							for _, d := range lres.GetDistributedAccounts() {
+								names[d.GetName()] = true
+							}
+						}
+						if !names[path] || !names["Wallet 3/gen2"] {
+							rc.Violate("C12", "account-unusable-after-later-generation", fmt.Sprintf("%s lists %v after two generations", p.Name, names), s.Step)
+							return
+						}
+					}
+				})
+			} else if o == "done" && out2.Done {
+				rc.Violate("C12", "valid-generation-failed", fmt.Sprintf("a second fault-free generation on the same cluster failed: %s", out2.Message), s.Step)
+			}
+		}
+		if len(rc.Viol) > 0 {
+			return
+		}
+		s.Direct(func() {
 			// Restart one participant: the account must still be there and sign.
 			p := parts[ch.Pick(len(parts), 0)]
 			dir := p.Inst.Cfg.Dir
